@@ -16,7 +16,8 @@ every run (harness c08).
 
 What holds and what does not, clause by clause (details at each theorem). Two defects of the pinned code were repaired
 in /repo (a61f1aeb: the reload path uses the same confirmsRequired; db1b9b14: updateLIB ignores a lower candidate) and the
-model follows the repaired code; three are recorded as known findings and stay visible here as proved negations.
+model follows the repaired code; five are recorded as known findings and stay visible here as proved negations (concrete
+witnesses, each placed next to the conditional theorem whose guard it violates).
 
  * veto rules / never undone       — `veto_below_lib`: exact, for the LIB the Status object currently holds;
                                      `below_lib_never_replaced`: along every sequence of chain-service activities that passed the
@@ -24,18 +25,24 @@ model follows the repaired code; three are recorded as known findings and stay v
                                      KNOWN C08-restart-lazy-load-veto-gap: `restart_forgets_lib` — after a restart that LIB is 0
                                      until the first Update (witness `restart_veto_gap_witness`).
  * > 2/3 distinct producers        — `quorum_more_than_two_thirds`, `libIndex_leaves_quorum` (formulas), `reload_same_quorum`,
-                                     `prelib_quorum` (a pre-LIB needs `q` covering window blocks, pairwise distinct producers
-                                     under honest ranges), `window_invariant_history` (every history, any producer count);
+                                     `prelib_quorum`, `window_invariant_history` (every history, any producer count);
+                                     `lib_vouched_by_full_quorum` (every history: the LIB and every pre-LIB entry were covered by
+                                     ≥ ⌊2k/3⌋+1 stored window blocks, k = ALL producers, however few have been seen; their
+                                     producers are distinct under the guard `HonestRanges`);
+                                     KNOWN C08-quorum-by-lying-confirms: without that guard FALSE (`quorum_false_lying_confirms_witness`).
                                      `calcLIB_order_statistic` (the LIB is the rank-(m−1)/3 pre-LIB of the m producers seen: at least
                                      ⌊2m/3⌋+1 of them are at or above it), `calcLIB_order_independent`, `calcLIB_choice_exact`,
                                      `calcLIB_hash_determined` (what depends on Go's map order: only WHICH equal-numbered entry),
                                      `calcLIB_monotone_in_entries`, `lib_vouched_by_seen_quorum`, `prpsd_one_entry_per_producer`.
  * LIB never decreases             — `lib_monotone` (every history of stores/Updates/connects/swaps on a loaded Status),
                                      `lib_monotone_across_restart` (the first Update after a restart continues from the saved LIB).
- * LIB on the main chain           — KNOWN C08-lib-from-stale-entry-of-abandoned-branch: FALSE (`lib_on_chain_false`);
-                                     `lib_on_chain_partial` (connect branch, any predicate), `lib_on_chain_step` /
-                                     `lib_on_chain_history` (TRUE for every history without reorganisation, restarts included),
-                                     `rollback_branch_localised` (the rollback branch can leave only KEPT proposed entries off the chain).
+ * LIB on the main chain           — `lib_on_chain_through_reorgs`: TRUE for every history of the ghost automaton `StepG` (main-chain
+                                     blocks, failed executions, reorganisations, failed roll-forwards, restarts) under its two guards;
+                                     KNOWN C08-lib-from-stale-entry-of-abandoned-branch (guard at a rollback): `lib_on_chain_false`;
+                                     KNOWN C08-lib-kept-from-failed-rollforward (guard at a failed roll-forward):
+                                     `lib_kept_from_failed_rollforward_witness`. Also `lib_on_chain_partial` (connect branch, any
+                                     predicate), `lib_on_chain_step` / `lib_on_chain_history` (no reorganisation: no guard needed),
+                                     `rollback_branch_localised`.
  * restart = recompute             — `restart_exact` (every history: Lib, LpbNo restored; confirmsRequired, genesis, self constant;
                                      window and proposed map recomputed, lookup by lookup), `restart_equal_partial`.
  * two correct nodes               — KNOWN C08-conflicting-libs-honest-switch-below-confirmed: the full statement is FALSE, even with
@@ -48,6 +55,8 @@ import Aergo.Lemmas.LibInv
 import Aergo.Lemmas.LibOrder
 import Aergo.Lemmas.LibChain
 import Aergo.Lemmas.LibRestart
+import Aergo.Lemmas.LibReorg
+import Aergo.Lemmas.LibVouch
 import Mathlib.Data.Finset.Card
 
 namespace Aergo.Props.C08
@@ -443,6 +452,110 @@ theorem lib_monotone_across_restart (n : Node) (h : n.saved = some (savedOf n.ls
   refine ⟨r1, r2, ?_⟩
   simp [statusLoad, restart]
 
+section witnesses2_defs
+/-! Concrete histories for the witnesses of the three clauses that are FALSE for the pinned code (each witness theorem — placed
+right after the `_partial` theorem whose guard it violates — EVALUATES the model on them with `decide +kernel`; all are replayed on
+the real code by the harness: c08 parts A6, A7, c08cs `scriptedFailedBranch`). Producers p0..p3, cr = 3. -/
+
+private def mk' (id : String) (no : Nat) (prev bp : String) (c : Nat) : Blk := ⟨id, no, prev, bp, c⟩
+private def mainBlk' (b : Blk) : List Op := [.blk b, .update b "", .connect b]
+private def q4 : List String := ["p0", "p1", "p2", "p3"]
+
+/-- every producer's Confirms value is `no − (number of its previous block in the list)`, and its numbers increase: the
+blocks are what honest block factories produce (no equivocation: a producer's next block is numbered above its previous one). -/
+private def confirmsHonest (bs : List Blk) : Bool :=
+  (bs.foldl (fun (acc : Bool × List (String × Nat)) b =>
+    let lpb := ((acc.2.find? (·.1 == b.bp)).map (·.2)).getD 0
+    (acc.1 && decide (lpb < b.no) && decide (b.confirms = honestConfirms b.no lpb), (b.bp, b.no) :: acc.2)) (true, [])).1
+
+-- two connected rounds
+private def h1 := mk' "b1" 1 "g" "p0" 1
+private def h2 := mk' "b2" 2 "b1" "p1" 2
+private def h3 := mk' "b3" 3 "b2" "p2" 3
+private def h4 := mk' "b4" 4 "b3" "p3" 4
+private def h5 := mk' "b5" 5 "b4" "p0" 4
+private def h6 := mk' "b6" 6 "b5" "p1" 4
+private def h7 := mk' "b7" 7 "b6" "p2" 4
+private def h8 := mk' "b8" 8 "b7" "p3" 4
+private def common8 : List Blk := [h1, h2, h3, h4, h5, h6, h7, h8]
+-- p3 is cut off; p0 p1 p2 continue (branch β)
+private def h9 := mk' "b9" 9 "b8" "p0" 4
+private def h10 := mk' "b10" 10 "b9" "p1" 4
+private def h11 := mk' "b11" 11 "b10" "p2" 4
+private def h12 := mk' "b12" 12 "b11" "p0" 3
+private def h13 := mk' "b13" 13 "b12" "p1" 3     -- seen by p1 only
+-- p3 alone (branch γ), p0 and p2 miss their slots meanwhile
+private def g9 := mk' "c9" 9 "b8" "p3" 1
+private def g10 := mk' "c10" 10 "c9" "p3" 1
+private def g11 := mk' "c11" 11 "c10" "p3" 1
+private def g12 := mk' "c12" 12 "c11" "p3" 1
+private def g13 := mk' "c13" 13 "c12" "p3" 1
+-- p0, p2, p3 reconnected (p1 still cut off)
+private def g14 := mk' "c14" 14 "c13" "p0" 2
+private def g15 := mk' "c15" 15 "c14" "p2" 4
+private def g16 := mk' "c16" 16 "c15" "p3" 3
+private def g17 := mk' "c17" 17 "c16" "p0" 3
+private def g18 := mk' "c18" 18 "c17" "p2" 3
+private def g19 := mk' "c19" 19 "c18" "p3" 3
+/-- p0's chain service adopts γ: gather, NeedReorganization(8), rollback = Update(b8), roll forward, swap. -/
+private def reorgG : List Op :=
+  [.blk g9, .blk g10, .blk g11, .blk g12, .blk g13, .update h8 "", .update g9 "", .update g10 "", .update g11 "",
+   .update g12 "", .update g13 "", .swap [g13, g12, g11, g10, g9]]
+
+
+-- libStatus.LpbNo moves backwards: fork root a1 (p1); p0 builds x2 on a1, adopts y2 y3 (p3), builds y4 (Confirms 4 − 2), then
+-- adopts the longer x3 x4 x5 (p1) on its own older block x2
+private def a1' := mk' "a1" 1 "g" "p1" 1
+private def x2 := mk' "x2" 2 "a1" "p0" 2
+private def y2 := mk' "y2" 2 "a1" "p3" 2
+private def y3 := mk' "y3" 3 "y2" "p3" 1
+private def y4 := mk' "y4" 4 "y3" "p0" 2
+private def x3 := mk' "x3" 3 "x2" "p1" 2
+private def x4 := mk' "x4" 4 "x3" "p1" 1
+private def x5 := mk' "x5" 5 "x4" "p1" 1
+private def lpbHist1 : List Op :=
+  mainBlk' a1' ++ mainBlk' x2 ++ [.blk y2, .blk y3, .update a1' "", .update y2 "", .update y3 "", .swap [y3, y2]] ++ mainBlk' y4
+private def lpbHist2 : List Op :=
+  [.blk x3, .blk x4, .blk x5, .update a1' "", .update x2 "", .update x3 "", .update x4 "", .update x5 "", .swap [x5, x4, x3, x2]]
+
+
+-- failed roll-forward: own branch m9..m14 (p0 alone), the other producers' branch c9..c14 arrives as a side branch, its next block
+-- fails to execute: the chain service issues Update(b8) (rollback), Update(c9..c14) (roll-forward), Update(m14) twice (restore)
+private def m9 := mk' "m9" 9 "b8" "p0" 4
+private def m10 := mk' "m10" 10 "m9" "p0" 1
+private def m11 := mk' "m11" 11 "m10" "p0" 1
+private def m12 := mk' "m12" 12 "m11" "p0" 1
+private def m13 := mk' "m13" 13 "m12" "p0" 1
+private def m14 := mk' "m14" 14 "m13" "p0" 1
+private def k9 := mk' "c9" 9 "b8" "p1" 3
+private def k10 := mk' "c10" 10 "c9" "p2" 3
+private def k11 := mk' "c11" 11 "c10" "p3" 3
+private def k12 := mk' "c12" 12 "c11" "p1" 3
+private def k13 := mk' "c13" 13 "c12" "p2" 3
+private def k14 := mk' "c14" 14 "c13" "p3" 3
+private def failedRF : List Op :=
+  [k9, k10, k11, k12, k13, k14].map Op.blk ++ [.update h8 ""] ++ [k9, k10, k11, k12, k13, k14].map (fun c => Op.update c "") ++
+  [.update m14 "", .update m14 ""]
+
+
+-- one producer lying in Confirms: p0 honest (no − lpbNo), p3 claims everything back to number 1; p1 and p2 never produce
+private def l1 := mk' "a1" 1 "g" "p0" 1
+private def l2 := mk' "a2" 2 "a1" "p3" 2
+private def l3 := mk' "a3" 3 "a2" "p0" 2
+private def l4 := mk' "a4" 4 "a3" "p3" 4
+private def l5 := mk' "a5" 5 "a4" "p0" 2
+private def l6 := mk' "a6" 6 "a5" "p3" 6
+private def l7 := mk' "a7" 7 "a6" "p0" 2
+private def l8 := mk' "a8" 8 "a7" "p3" 8
+private def l9 := mk' "a9" 9 "a8" "p0" 2
+private def honest4 := mk' "a4" 4 "a3" "p3" 2
+private def honest6 := mk' "a6" 6 "a5" "p3" 2
+private def honest8 := mk' "a8" 8 "a7" "p3" 2
+
+
+
+end witnesses2_defs
+
 /-! ## 6. Two correct nodes -/
 
 /-- **quorum_intersect.** Pure counting: among `n` producers, two sets of at least `⌊2n/3⌋+1` producers share a member
@@ -557,6 +670,28 @@ example : ∃ (T : BlockTree Nat (Fin 4)), (∀ p, T.RangesDisjoint p) ∧ (∀ 
     · exact ⟨8, rfl, by omega, by omega, by omega⟩
     · exact ⟨5, rfl, by omega, by omega, by omega⟩
     · exact ⟨6, rfl, by omega, by omega, by omega⟩
+
+/-- **agreement_false_honest_witness** (candidate finding C08-conflicting-libs-honest-switch-below-confirmed; confirmed on the
+real `dpos.Status` by harness c08 part A6). The two-node clause is FALSE although NO producer misbehaves: all Confirms values
+are `no − lpbNo`, nobody equivocates, nobody restarts, no stale entry is involved. p1's node (sees b1..b13) reports LIB b9.
+p0's node saw b1..b12: its LIB is b8, so the branch c9..c13 (longer, root b8 = its LIB) passes both vetoes and is adopted;
+with c14..c19 by p0, p2, p3 it reports LIB c13, c14, c15 — while b9 ≠ c9 at height 9. On each node alone the LIB is monotone
+and on its own main chain. A producer protects only its own LIB: of the quorum whose pre-LIBs make b9 irreversible only the
+last member (p1) knows it; p0 and p2, having confirmed b9..b12, may still abandon them. Hence `StaysOnConfirmed`, the extra
+hypothesis of `agreement_partial`, does NOT hold for honest producers and cannot be derived from the node-local theorems. -/
+theorem agreement_false_honest_witness :
+    let nodeP1 := (newNode "p1" q4).run ((common8 ++ [h9, h10, h11, h12, h13]).flatMap mainBlk')
+    let p0a := (newNode "p0" q4).run ((common8 ++ [h9, h10, h11, h12]).flatMap mainBlk')
+    let nodeP0 := p0a.run (reorgG ++ [g14, g15, g16, g17, g18, g19].flatMap mainBlk')
+    -- all blocks are what honest block factories produce
+    confirmsHonest (common8 ++ [h9, h10, h11, h12, h13, g9, g10, g11, g12, g13, g14, g15, g16, g17, g18, g19]) = true ∧
+    -- p1 holds b9
+    nodeP1.ls.lib.hash = "b9" ∧ hashByNo nodeP1 9 = some "b9" ∧
+    -- p0: LIB b8 when the other branch arrives; both vetoes let it through
+    p0a.ls.lib.hash = "b8" ∧ needReorg p0a 8 = true ∧ ([g9, g10, g11, g12, g13].all (verifyTs p0a)) = true ∧
+    -- p0 ends with LIB c15 on the other branch (its own LIB numbers went 8 → 13 → 14 → 15, always on its main chain)
+    nodeP0.ls.lib.hash = "c15" ∧ hashByNo nodeP0 15 = some "c15" ∧ hashByNo nodeP0 9 = some "c9" := by
+  decide +kernel
 
 /-! ## 7. `calcLIB` is an order statistic of the pre-LIB map -/
 
@@ -923,6 +1058,19 @@ theorem factory_ranges_disjoint : ∀ (lpb : Nat) (bs : List Blk), FactoryRun lp
 example : FactoryRun 0 [⟨"b1", 1, "g", "p0", 1⟩, ⟨"b5", 5, "b4", "p0", 4⟩, ⟨"c9", 9, "c8", "p0", 4⟩] := by
   simp only [FactoryRun]; decide
 
+/-- **lpb_regress_witness** (observation, a test of the model; the `lpb` field is part of every compared status dump). `libStatus.LpbNo`
+is assigned at EVERY `addConfirmInfo` of an own block, also when roll-forward passes an OLDER own block: here it goes 4 → 2 when
+the node returns to the branch of its block x2 after having produced y4 on another branch (Confirms 2: heights 3, 4). The running
+block factory keeps its own variable, but after a restart it starts from the saved value 2: its next block x6 would carry
+Confirms 6 − 2 = 4 and confirm heights 3, 4 a second time, on the other branch — the `honest` hypothesis (`RangesDisjoint`) of
+`agreement_same_height` is then not met by a correct producer. -/
+theorem lpb_regress_witness :
+    let n1 := (newNode "p0" q4).run lpbHist1
+    let n2 := n1.run lpbHist2
+    n1.ls.lpb = 4 ∧ n2.ls.lpb = 2 ∧ (restart n2).bl.lpb = 2 ∧ n2.latest = 5 ∧
+      inRange ⟨"x6", 6, honestConfirms 6 (restart n2).bl.lpb⟩ 4 = true ∧ inRange y4.bi 4 = true := by
+  decide +kernel
+
 /-- a history in which every operation is enabled in the state it is applied to. -/
 def HistOf (P : Node → Op → Prop) : Node → List Op → Prop
   | _, [] => True
@@ -954,106 +1102,6 @@ theorem tip_never_decreases : ∀ (ops : List Op) (n : Node), HistOf ConnectsAbo
       | restart => exact Nat.le_refl _
     exact Nat.le_trans hstep (tip_never_decreases rest _ h.2)
 
-section witnesses2
-/-! Two-node witnesses (each `decide +kernel` EVALUATES the model on concrete histories — tests of the model, confirmed on
-the real code by harness c08 part A6). Producers p0..p3, cr = 3. -/
-
-private def mk' (id : String) (no : Nat) (prev bp : String) (c : Nat) : Blk := ⟨id, no, prev, bp, c⟩
-private def mainBlk' (b : Blk) : List Op := [.blk b, .update b "", .connect b]
-private def q4 : List String := ["p0", "p1", "p2", "p3"]
-
-/-- every producer's Confirms value is `no − (number of its previous block in the list)`, and its numbers increase: the
-blocks are what honest block factories produce (no equivocation: a producer's next block is numbered above its previous one). -/
-private def confirmsHonest (bs : List Blk) : Bool :=
-  (bs.foldl (fun (acc : Bool × List (String × Nat)) b =>
-    let lpb := ((acc.2.find? (·.1 == b.bp)).map (·.2)).getD 0
-    (acc.1 && decide (lpb < b.no) && decide (b.confirms = honestConfirms b.no lpb), (b.bp, b.no) :: acc.2)) (true, [])).1
-
--- two connected rounds
-private def h1 := mk' "b1" 1 "g" "p0" 1
-private def h2 := mk' "b2" 2 "b1" "p1" 2
-private def h3 := mk' "b3" 3 "b2" "p2" 3
-private def h4 := mk' "b4" 4 "b3" "p3" 4
-private def h5 := mk' "b5" 5 "b4" "p0" 4
-private def h6 := mk' "b6" 6 "b5" "p1" 4
-private def h7 := mk' "b7" 7 "b6" "p2" 4
-private def h8 := mk' "b8" 8 "b7" "p3" 4
-private def common8 : List Blk := [h1, h2, h3, h4, h5, h6, h7, h8]
--- p3 is cut off; p0 p1 p2 continue (branch β)
-private def h9 := mk' "b9" 9 "b8" "p0" 4
-private def h10 := mk' "b10" 10 "b9" "p1" 4
-private def h11 := mk' "b11" 11 "b10" "p2" 4
-private def h12 := mk' "b12" 12 "b11" "p0" 3
-private def h13 := mk' "b13" 13 "b12" "p1" 3     -- seen by p1 only
--- p3 alone (branch γ), p0 and p2 miss their slots meanwhile
-private def g9 := mk' "c9" 9 "b8" "p3" 1
-private def g10 := mk' "c10" 10 "c9" "p3" 1
-private def g11 := mk' "c11" 11 "c10" "p3" 1
-private def g12 := mk' "c12" 12 "c11" "p3" 1
-private def g13 := mk' "c13" 13 "c12" "p3" 1
--- p0, p2, p3 reconnected (p1 still cut off)
-private def g14 := mk' "c14" 14 "c13" "p0" 2
-private def g15 := mk' "c15" 15 "c14" "p2" 4
-private def g16 := mk' "c16" 16 "c15" "p3" 3
-private def g17 := mk' "c17" 17 "c16" "p0" 3
-private def g18 := mk' "c18" 18 "c17" "p2" 3
-private def g19 := mk' "c19" 19 "c18" "p3" 3
-/-- p0's chain service adopts γ: gather, NeedReorganization(8), rollback = Update(b8), roll forward, swap. -/
-private def reorgG : List Op :=
-  [.blk g9, .blk g10, .blk g11, .blk g12, .blk g13, .update h8 "", .update g9 "", .update g10 "", .update g11 "",
-   .update g12 "", .update g13 "", .swap [g13, g12, g11, g10, g9]]
-
-/-- **agreement_false_honest_witness** (candidate finding C08-conflicting-libs-honest-switch-below-confirmed; confirmed on the
-real `dpos.Status` by harness c08 part A6). The two-node clause is FALSE although NO producer misbehaves: all Confirms values
-are `no − lpbNo`, nobody equivocates, nobody restarts, no stale entry is involved. p1's node (sees b1..b13) reports LIB b9.
-p0's node saw b1..b12: its LIB is b8, so the branch c9..c13 (longer, root b8 = its LIB) passes both vetoes and is adopted;
-with c14..c19 by p0, p2, p3 it reports LIB c13, c14, c15 — while b9 ≠ c9 at height 9. On each node alone the LIB is monotone
-and on its own main chain. A producer protects only its own LIB: of the quorum whose pre-LIBs make b9 irreversible only the
-last member (p1) knows it; p0 and p2, having confirmed b9..b12, may still abandon them. Hence `StaysOnConfirmed`, the extra
-hypothesis of `agreement_partial`, does NOT hold for honest producers and cannot be derived from the node-local theorems. -/
-theorem agreement_false_honest_witness :
-    let nodeP1 := (newNode "p1" q4).run ((common8 ++ [h9, h10, h11, h12, h13]).flatMap mainBlk')
-    let p0a := (newNode "p0" q4).run ((common8 ++ [h9, h10, h11, h12]).flatMap mainBlk')
-    let nodeP0 := p0a.run (reorgG ++ [g14, g15, g16, g17, g18, g19].flatMap mainBlk')
-    -- all blocks are what honest block factories produce
-    confirmsHonest (common8 ++ [h9, h10, h11, h12, h13, g9, g10, g11, g12, g13, g14, g15, g16, g17, g18, g19]) = true ∧
-    -- p1 holds b9
-    nodeP1.ls.lib.hash = "b9" ∧ hashByNo nodeP1 9 = some "b9" ∧
-    -- p0: LIB b8 when the other branch arrives; both vetoes let it through
-    p0a.ls.lib.hash = "b8" ∧ needReorg p0a 8 = true ∧ ([g9, g10, g11, g12, g13].all (verifyTs p0a)) = true ∧
-    -- p0 ends with LIB c15 on the other branch (its own LIB numbers went 8 → 13 → 14 → 15, always on its main chain)
-    nodeP0.ls.lib.hash = "c15" ∧ hashByNo nodeP0 15 = some "c15" ∧ hashByNo nodeP0 9 = some "c9" := by
-  decide +kernel
-
--- libStatus.LpbNo moves backwards: fork root a1 (p1); p0 builds x2 on a1, adopts y2 y3 (p3), builds y4 (Confirms 4 − 2), then
--- adopts the longer x3 x4 x5 (p1) on its own older block x2
-private def a1' := mk' "a1" 1 "g" "p1" 1
-private def x2 := mk' "x2" 2 "a1" "p0" 2
-private def y2 := mk' "y2" 2 "a1" "p3" 2
-private def y3 := mk' "y3" 3 "y2" "p3" 1
-private def y4 := mk' "y4" 4 "y3" "p0" 2
-private def x3 := mk' "x3" 3 "x2" "p1" 2
-private def x4 := mk' "x4" 4 "x3" "p1" 1
-private def x5 := mk' "x5" 5 "x4" "p1" 1
-private def lpbHist1 : List Op :=
-  mainBlk' a1' ++ mainBlk' x2 ++ [.blk y2, .blk y3, .update a1' "", .update y2 "", .update y3 "", .swap [y3, y2]] ++ mainBlk' y4
-private def lpbHist2 : List Op :=
-  [.blk x3, .blk x4, .blk x5, .update a1' "", .update x2 "", .update x3 "", .update x4 "", .update x5 "", .swap [x5, x4, x3, x2]]
-
-/-- **lpb_regress_witness** (observation, a test of the model; the `lpb` field is part of every compared status dump). `libStatus.LpbNo`
-is assigned at EVERY `addConfirmInfo` of an own block, also when roll-forward passes an OLDER own block: here it goes 4 → 2 when
-the node returns to the branch of its block x2 after having produced y4 on another branch (Confirms 2: heights 3, 4). The running
-block factory keeps its own variable, but after a restart it starts from the saved value 2: its next block x6 would carry
-Confirms 6 − 2 = 4 and confirm heights 3, 4 a second time, on the other branch — the `honest` hypothesis (`RangesDisjoint`) of
-`agreement_same_height` is then not met by a correct producer. -/
-theorem lpb_regress_witness :
-    let n1 := (newNode "p0" q4).run lpbHist1
-    let n2 := n1.run lpbHist2
-    n1.ls.lpb = 4 ∧ n2.ls.lpb = 2 ∧ (restart n2).bl.lpb = 2 ∧ n2.latest = 5 ∧
-      inRange ⟨"x6", 6, honestConfirms 6 (restart n2).bl.lpb⟩ 4 = true ∧ inRange y4.bi 4 = true := by
-  decide +kernel
-
-end witnesses2
 
 /-! ## 11. Never undone: the main chain at and below the LIB -/
 
@@ -1144,6 +1192,112 @@ example :
     simp only [List.mem_cons, List.mem_nil_iff, or_false] at hop
     rcases hop with rfl | rfl | rfl | rfl | rfl <;> trivial
   · exact ⟨7, by decide +kernel, by decide⟩
+
+/-! ## 12. LIB on the main chain THROUGH reorganisations, failed executions and failed roll-forwards -/
+
+/-- **lib_on_chain_through_reorgs** (the `_partial` form of the on-chain clause, with its exact guards). For EVERY history the
+ghost automaton `StepG` accepts (lean/Aergo/Lemmas/LibReorg.lean; harness c08cs checks on every run that the REAL chain service's
+calls into the consensus follow it): stores; restarts; main-chain blocks (Update of a stored child of the tip, then connect);
+failed executions (Update of the tip itself); reorganisations (rollback Update(root) of a main-chain block at or above the LIB,
+roll-forward Updates, swapChainMapping of exactly those blocks) and failed roll-forwards (Update of the old tip) — the invariant
+`ChainInvG` holds, and whenever the chain service is between two activities (phase `synced`) the LIB and every pre-LIB entry lie on
+the main chain. The ONLY hypotheses that are not about the shape of the calls are the two guards built into `StepG`:
+ * at a rollback: `NoStale` — afterwards no proposed entry names a block numbered above the branch root
+   (violated by the pinned code: known finding C08-lib-from-stale-entry-of-abandoned-branch, `lib_on_chain_false`);
+ * at a failed roll-forward: no entry and no LIB picked up on the branch that was NOT adopted survives
+   (violated by the pinned code: known finding C08-lib-kept-from-failed-rollforward, `lib_kept_from_failed_rollforward_witness`). -/
+theorem lib_on_chain_through_reorgs (self : String) (gbps : List String) (ops : List Op) (phEnd : Phase)
+    (hh : HistG (newNode self gbps) .synced ops phEnd) :
+    let n := (newNode self gbps).run ops
+    ChainInvG n phEnd ∧
+    (phEnd = .synced →
+      (n.ls.lib = zeroBI ∨ OnChain n n.ls.lib) ∧ ∀ kv ∈ n.ls.prpsd, kv.2.plib = zeroBI ∨ OnChain n kv.2.plib) := by
+  have hinv := histG_inv ops (newNode_ChainInvG self gbps) (newNode_IdInv self gbps) hh
+  refine ⟨hinv, ?_⟩
+  intro e
+  subst e
+  exact ⟨hinv.refs.2.2.1, hinv.refs.1⟩
+
+/-- non-vacuity (evaluation of `StepG` along a history with its phases written out — a test): eight main-chain blocks, then the
+permitted reorganisation of `reorg9` (rollback to b7, roll-forward c8 c9, swap), all guards true. -/
+example : ∃ ops, HistG (newNode "p0" ps4) .synced ops .synced ∧ ((newNode "p0" ps4).run ops).ls.lib.no = 4 ∧
+    hashByNo ((newNode "p0" ps4).run ops) 9 = some "c9" := by
+  let main (b : Blk) : List (Op × Phase) := [(.blk b, .synced), (.update b "", .pending b), (.connect b, .synced)]
+  let l : List (Op × Phase) := [b1, b2, b3, b4, b5, b6, b7, b8].flatMap main ++
+    [(.blk c8, .synced), (.blk c9, .synced), (.update b7 "", .reorg 7 []), (.update c8 "", .reorg 7 [c8]),
+     (.update c9 "", .reorg 7 [c9, c8]), (.swap [c9, c8], .synced)]
+  have h : HistGW (newNode "p0" ps4) .synced l := by decide +kernel
+  refine ⟨l.map (·.1), ?_, by decide +kernel, by decide +kernel⟩
+  have := HistG_of_HistGW l _ _ h
+  have e : lastPh .synced l = .synced := by decide +kernel
+  rw [e] at this
+  exact this
+
+/-- **lib_kept_from_failed_rollforward_witness** (known finding C08-lib-kept-from-failed-rollforward; replayed on the real
+chain.ChainService + dpos.Status by harness c08cs `scriptedFailedBranch`). The node (p0) is on its own branch m9..m14 with LIB b5;
+the branch c9..c14 of p1 p2 p3 is rolled forward in a reorganisation (root b8 ≥ LIB, permitted) whose next block fails to execute;
+the chain service puts the Status back on m14 (`Update(bestBlock)`, twice). The Status keeps LIB c10 — a block of the branch that
+was NOT adopted: the main chain holds m10 at number 10 — and from then on `NeedReorganization(8)` is false: the valid branch can
+never be adopted. The guard of `lib_on_chain_through_reorgs` at a failed roll-forward excludes exactly this. -/
+theorem lib_kept_from_failed_rollforward_witness :
+    let n0 := (newNode "p0" q4).run ((common8 ++ [m9, m10, m11, m12, m13, m14]).flatMap mainBlk')
+    let n1 := n0.run failedRF
+    n0.ls.lib.hash = "b5" ∧ needReorg n0 8 = true ∧
+      n1.best = "m14" ∧ n1.ls.lib.hash = "c10" ∧ hashByNo n1 10 = some "m10" ∧ needReorg n1 8 = false := by
+  decide +kernel
+
+/-! ## 13. The quorum of ALL producers behind every LIB -/
+
+/-- **lib_vouched_by_full_quorum** (the `_partial` form of the quorum clause; links the m producers SEEN of
+`calcLIB_order_statistic` to all k producers). For EVERY history of valid chain-service operations in which the blocks passed to
+`Status.Update` are stored blocks (`StoredHist`: any order of stores, Updates in both branches, connects, swaps, restarts; any
+Confirms values): the LIB the Status holds is the zero value, the genesis placeholder, or a block for which at least
+`confirmsRequired k = ⌊2k/3⌋+1 > 2k/3` window positions — each a stored block — had a confirm range containing its number
+(`Vouched`); the same for every entry of the proposed map, in the Status and in the boot loader (so also across rollback replays
+and restarts) — however few producers are in the map. The producers of these blocks are pairwise DISTINCT exactly under the
+guard `HonestRanges` (a producer's later range starts above its earlier block: `factory_ranges_disjoint`); without it the clause
+is false: `quorum_false_lying_confirms_witness`. -/
+theorem lib_vouched_by_full_quorum (k : Nat) (self : String) (gbps : List String) (hg : gbps.length = k) (ops : List Op)
+    (hh : StoredHist (newNode self gbps) ops) :
+    let n := (newNode self gbps).run ops
+    3 * confirmsRequired k > 2 * k ∧
+    (n.ls.lib = zeroBI ∨ n.ls.lib = n.genesis ∨ Vouched (confirmsRequired k) n.blocks n.ls.lib) ∧
+    (∀ kv ∈ n.ls.prpsd, kv.2.plib = n.genesis ∨ Vouched (confirmsRequired k) n.blocks kv.2.plib) ∧
+    (∀ kv ∈ n.bl.prpsd, kv.2.plib = n.genesis ∨ Vouched (confirmsRequired k) n.blocks kv.2.plib) ∧
+    (∀ (bi : BI) (confirmers : List CI), (∀ d ∈ confirmers, inRange d.bi bi.no = true) → HonestRanges confirmers →
+        (confirmers.map (·.bp)).Nodup) := by
+  have hv : ∀ op ∈ ops, op.Valid := by
+    have : ∀ (ops : List Op) (n : Node), StoredHist n ops → ∀ op ∈ ops, op.Valid := by
+      intro ops
+      induction ops with
+      | nil => intro _ _ op hop; cases hop
+      | cons o rest ih =>
+        intro n hs op hop
+        rcases List.mem_cons.mp hop with rfl | hop
+        · exact hs.1
+        · exact ih _ hs.2.2 op hop
+    exact this ops _ hh
+  have h0 : NodeInv k (newNode self gbps) := window_invariant_history k self gbps hg [] (by simp)
+  obtain ⟨v, _, _⟩ := run_vouch k ops _ hh (newNode_vouch k self gbps) h0 (newNode_IdInv self gbps)
+  exact ⟨(quorum_more_than_two_thirds k).1, v.lsL, v.lsE, v.blE,
+    fun bi confirmers hc hhon => Vouched_distinct (q := 0) (blocks := []) confirmers hc hhon⟩
+
+/-- the hypotheses are met by a non-trivial history (evaluation — a test): the eight main-chain blocks and the reorganisation of
+`reorg9`, every Updated block stored before. -/
+example : StoredHist (newNode "p0" ps4) (main8 ++ reorg9) := by decide +kernel
+
+/-- **quorum_false_lying_confirms_witness** (known finding C08-quorum-by-lying-confirms; harness c08 part A7 on the real
+`dpos.Status`). Receivers never validate `Confirms`. Four producers, only p0 (honest) and p3 ever produce; p3 puts its block
+number into `Confirms` (claims every block back to number 1). After nine blocks the node reports LIB a6, although only TWO of the
+four producers have ever produced a block (⌊2·4/3⌋+1 = 3 needed); with p3's honest values the same schedule leaves the LIB at 0.
+`prelib_quorum` gives distinct producers exactly under `HonestRanges`, the guard this history violates. -/
+theorem quorum_false_lying_confirms_witness :
+    ((newNode "p1" q4).run ([l1, l2, l3, l4, l5, l6, l7, l8, l9].flatMap mainBlk')).ls.lib.hash = "a6" ∧
+    confirmsHonest [l1, l2, l3, l4, l5, l6, l7, l8, l9] = false ∧ confirmsRequired 4 = 3 ∧
+    ([l1, l2, l3, l4, l5, l6, l7, l8, l9].map (·.bp)).eraseDups.length = 2 ∧
+    ((newNode "p1" q4).run ([l1, l2, l3, honest4, l5, honest6, l7, honest8, l9].flatMap mainBlk')).ls.lib.no = 0 ∧
+    confirmsHonest [l1, l2, l3, honest4, l5, honest6, l7, honest8, l9] = true := by
+  decide +kernel
 
 /-
 **agreement — the full statement is FALSE for the pinned protocol, even with f = 0.**
